@@ -95,6 +95,9 @@ package proxy
 // Sequential (linearised) contract of the critical section: for ALL int32 idx and value there is no panic,
 // the lock is released on every exit, at most one pre-existing counter changes (by exactly `value`), and a
 // non-zero report is never lost. The slot used for idx is an implementation detail the contract does not fix.
+// The counter slice (its header and therefore its backing array) is read and replaced only under the grow lock: a
+// lock-free reader can add to an array that a concurrent grow has already copied, and the report is lost.
+//@ guards ReplicationStreamObserver.streamGrowLock: !streamActive
 //@ contract (*ReplicationStreamObserver).ReportStreamValue
 //@   props C20 C07
 //@   requires s.wf()
@@ -436,7 +439,7 @@ package proxy
 // taken only when the ring has nothing at or below w); entries are discarded only after the forwarding loops, and
 // exactly as many as the aggregation covered.
 //@ contract (*proxyStreamSender).recvAck
-//@   props C01 C04
+//@   props C01 C04 C05:emit
 //@   wakeup shutdownChan.Channel()
 //@   ensures @latch_tripped: shutdownChan.tripped
 //@   requires s.prevAckBySource != nil && !fresh(s.prevAckBySource)
@@ -472,9 +475,13 @@ package proxy
 //@   ensures result != nil && fresh(result) && sametype(result, m)
 //@   ensures msgsOf(cast(result, "*adminservice.StreamWorkflowReplicationMessagesResponse")) != nil && len(msgsOf(cast(result, "*adminservice.StreamWorkflowReplicationMessagesResponse")).ReplicationTasks) == 0
 //@   assigns nothing
-//@ extern (ShardManager).DeliverMessagesToShardOwner@(*proxyStreamReceiver).recvReplicationMessages
+// ghost: the target and the outcome of the latest hand-off attempt of this receiver
+//@ ghost proxyStreamReceiver.handOffTarget history.ClusterShardID
+//@ ghost proxyStreamReceiver.handOffOK bool
+//@ extern (ShardManager).DeliverMessagesToShardOwner@(*proxyStreamReceiver).recvReplicationMessages(targetShard, m, sd, lg)
 //@   trusted enqueues the message on the stream of the given target shard or reports failure (contract of the shard manager, see C09)
-//@   assigns nothing
+//@   ensures r.handOffTarget == targetShard && r.handOffOK == result
+//@   assigns r.handOffTarget, r.handOffOK
 
 // ownedBy(t, K): K is the shard of the target cluster that owns task t's workflow under the target's shard count
 //@ pred ownedBy(r *proxyStreamReceiver, t *replicationv1.ReplicationTask, k history.ClusterShardID) = t != nil && t.RawTaskInfo != nil &&
@@ -505,7 +512,10 @@ package proxy
 //@   callpre DeliverMessagesToShardOwner: @bound_raised_first: calls(lastExclusiveHighOriginal) == r.msgBatches - old(r.msgBatches)
 // each local target gets its OWN copy of the watermark message: every sender rewrites the watermark of the message it
 // is handed into its own id space, so a shared object would carry one sender's proxy id to the next
-//@   sendpre sendChan: @private_copy: $value.Resp != msg.Resp && $value.Resp != nil && fresh($value.Resp)
+//@   sendpre sendChan: @private_copy: $value.Resp != msg.Resp && $value.Resp != nil && fresh($value.Resp) && thisIteration($value.Resp)
+// the hand-off is retried until it is ACCEPTED: a target is ticked off only on the strength of a hand-off to that very
+// target that has just been reported as delivered
+//@   storepre sentByTarget: @only_after_accepted_handoff: $value ==> (r.handOffOK && $key == r.handOffTarget)
 //@   loop 1 invariant @every_watermark_broadcast: calls(GetRemoteSendChansByCluster) == r.wmOnly - old(r.wmOnly)
 //@   wakeup shutdownChan.Channel()
 //@   arith wrap
@@ -552,18 +562,18 @@ package proxy
 
 // Cleanup removes only its own entries: a channel is unregistered only while it is still the registered one.
 //@ contract (*shardManagerImpl).RemoveRemoteSendChan
-//@   props C08
+//@   props C08 C20:lock
 //@   requires sm.remoteSendChannels != nil
 //@   deletepre remoteSendChannels: @only_own_channel: $key == shardID && $present && sm.remoteSendChannels[$key] == expectedChan
 //@ contract (*shardManagerImpl).RemoveLocalAckChan
-//@   props C08
+//@   props C08 C20:lock
 //@   requires sm.localAckChannels != nil
 //@   deletepre localAckChannels: @only_own_channel: $key == shardID && $present && sm.localAckChannels[$key] == expectedChan
 
 // A shard registration is removed only while it still carries the registration time of the caller's incarnation
 // (every delete in the dynamic extent of UnregisterShard).
 //@ contract (*shardManagerImpl).UnregisterShard
-//@   props C08 C09
+//@   props C08 C09 C20:lock
 //@   assigns contents(sm.localShards)
 //@   requires sm.localShards != nil
 //@   deletepre localShards: @only_own_registration: $present && sm.localShards[$key].Created == expectedRegisteredAt && $key == ClusterShardIDtoShortString(clientShardID)
@@ -626,13 +636,13 @@ package proxy
 //@   ensures @nil_iff_sent_once: (result == nil ==> req.sentOn == old(req.sentOn) + 1) && (result != nil ==> req.sentOn == old(req.sentOn))
 //@   assigns req.sentOn
 //@ contract (*intraProxyManager).sendReplicationMessages
-//@   props C09
+//@   props C09 C20:lock
 //@   requires goodResp(resp)
 //@   ensures @nil_iff_sent_once: (result == nil ==> resp.sentOn == old(resp.sentOn) + 1) && (result != nil ==> resp.sentOn == old(resp.sentOn))
 //@   assigns *, resp.sentOn
 //@   loop 1 invariant resp.sentOn == old(resp.sentOn) && goodResp(resp) && backoff >= 0 && backoff <= 400000000
 //@ contract (*intraProxyManager).sendAck
-//@   props C09
+//@   props C09 C20:lock
 //@   requires req != nil
 //@   ensures @nil_iff_sent_once: (result == nil ==> req.sentOn == old(req.sentOn) + 1) && (result != nil ==> req.sentOn == old(req.sentOn))
 //@   assigns *, req.sentOn
@@ -646,13 +656,13 @@ package proxy
 //@   assigns nothing
 
 //@ contract (*shardManagerImpl).DeliverMessagesToShardOwner
-//@   props C09 C08 C04 C02
+//@   props C09 C08 C04 C02 C20:lock
 //@   requires routedMsg != nil && goodMsg(deref(routedMsg))
 //@   ensures @exactly_once_iff_true: result <==> ($sends + (old(routedMsg.Resp).sentOn - old(routedMsg.Resp.sentOn)) == 1)
 //@   ensures @never_twice: $sends + (old(routedMsg.Resp).sentOn - old(routedMsg.Resp.sentOn)) <= 1
 //@   callpre sendReplicationMessages: @local_first: $sends == 0
 //@ contract (*shardManagerImpl).DeliverAckToShardOwner
-//@   props C09 C08 C04 C01
+//@   props C09 C08 C04 C01 C20:lock
 //@   requires routedAck != nil && routedAck.Req != nil
 // constructor invariant: acknowledgements are routed only in routing mode, where a memberlist configuration comes with an intra-proxy manager
 //@   requires sm.memberlistConfig != nil ==> sm.intraMgr != nil
@@ -678,17 +688,25 @@ package proxy
 //@ extern (ShardManager).DeliverMessagesToShardOwner@(*intraProxyStreamReceiver).sendPendingWatermarkToShard
 //@   assigns nothing
 //@ extern proto.Clone@(*proxyStreamReceiver).sendPendingWatermarkToShard(m)
-//@   trusted deep copy of the watermark-only message
+//@   trusted deep copy of the watermark-only message (same high watermark)
 //@   ensures result != nil && fresh(result) && sametype(result, m)
 //@   ensures msgsOf(cast(result, "*adminservice.StreamWorkflowReplicationMessagesResponse")) != nil && len(msgsOf(cast(result, "*adminservice.StreamWorkflowReplicationMessagesResponse")).ReplicationTasks) == 0
+//@   ensures msgsOf(cast(result, "*adminservice.StreamWorkflowReplicationMessagesResponse")).ExclusiveHighWatermark == msgsOf(cast(m, "*adminservice.StreamWorkflowReplicationMessagesResponse")).ExclusiveHighWatermark
 //@   assigns nothing
 //@ extern proto.Clone@(*intraProxyStreamReceiver).sendPendingWatermarkToShard(m)
 //@   ensures result != nil && fresh(result) && sametype(result, m)
 //@   ensures msgsOf(cast(result, "*adminservice.StreamWorkflowReplicationMessagesResponse")) != nil && len(msgsOf(cast(result, "*adminservice.StreamWorkflowReplicationMessagesResponse")).ReplicationTasks) == 0
 //@   assigns nothing
+// C01 / C04: what is replayed to a target shard that registers late is the last WATERMARK-ONLY batch this receiver
+// has recorded - a batch without tasks, so nothing can be pending below it - and never a watermark derived from
+// anything else (the high watermark of a task batch still being handed off, say).
 //@ contract (*proxyStreamReceiver).sendPendingWatermarkToShard
-//@   props C08
+//@   props C08 C01 C04
 //@   requires !(r.sourceShardID.ClusterID == 0 && r.sourceShardID.ShardID == 0)
+//@   sendpre sendChan: @only_a_recorded_watermark: old(r.lastWatermark) != nil && $value.Resp != nil && msgsOf($value.Resp) != nil &&
+//@        msgsOf($value.Resp).ExclusiveHighWatermark == old(r.lastWatermark.ExclusiveHighWatermark) && len(msgsOf($value.Resp).ReplicationTasks) == 0
+//@   callpre DeliverMessagesToShardOwner: @only_a_recorded_watermark: old(r.lastWatermark) != nil && $1 != nil && $1.Resp != nil && msgsOf($1.Resp) != nil &&
+//@        msgsOf($1.Resp).ExclusiveHighWatermark == old(r.lastWatermark.ExclusiveHighWatermark) && len(msgsOf($1.Resp).ReplicationTasks) == 0
 //@ contract (*intraProxyStreamReceiver).sendPendingWatermarkToShard
 //@   props C08
 //@   requires !(r.sourceShardID.ClusterID == 0 && r.sourceShardID.ShardID == 0)
@@ -755,7 +773,7 @@ package proxy
 // aggregation state is reset before the workers start; the deferred clean-up names this incarnation, and the
 // registry removes an entry only while it is still this incarnation's (defect D8, fixed).
 //@ contract (*proxyStreamReceiver).Run
-//@   props C08 C04
+//@   props C08 C04 C03
 //@   requires !(r.sourceShardID.ClusterID == 0 && r.sourceShardID.ShardID == 0)
 //@   requires r.lastSent == 0 && r.lastSentAck == nil
 //@   callpre SetLocalAckChan: @predecessor_evicted_first: r.prevTerminated && $ackChan == r.ackChan && $shardID == r.sourceShardID
@@ -792,15 +810,15 @@ package proxy
 // shard's entry (the assigns clause frames the map; other keys are covered by the map-store model).
 // ---------------------------------------------------------------------------------------------
 //@ contract (*shardManagerImpl).SetRemoteSendChan
-//@   props C08
+//@   props C08 C20:lock
 //@   requires sm.remoteSendChannels != nil
 //@   ensures @newest_registered: shardID in sm.remoteSendChannels && sm.remoteSendChannels[shardID] == sendChan
 //@ contract (*shardManagerImpl).SetLocalAckChan
-//@   props C08
+//@   props C08 C20:lock
 //@   requires sm.localAckChannels != nil
 //@   ensures @newest_registered: shardID in sm.localAckChannels && sm.localAckChannels[shardID] == ackChan
 //@ contract (*shardManagerImpl).RegisterActiveReceiver
-//@   props C08
+//@   props C08 C20:lock
 //@   requires sm.activeReceivers != nil
 //@   ensures @newest_registered: sourceShardID in sm.activeReceivers && sm.activeReceivers[sourceShardID] == receiver
 // The registration time doubles as the incarnation token that UnregisterShard compares, and as the claim time that
@@ -812,14 +830,14 @@ package proxy
 //@   ensures sm.lastNow == result
 //@   assigns sm.lastNow
 //@ contract (*shardManagerImpl).addLocalShard
-//@   props C08 C09
+//@   props C08 C09 C20:lock
 //@   requires sm.localShards != nil
 //@   ensures @token_is_this_clock_reading: result == sm.lastNow
 //@   ensures @claimed_now: ClusterShardIDtoShortString(shard) in sm.localShards && sm.localShards[ClusterShardIDtoShortString(shard)].Created == result && sm.localShards[ClusterShardIDtoShortString(shard)].ID == shard
 // The predecessor is evicted: after the call no cancel function and no acknowledgement channel of an older
 // receiver incarnation is registered for the shard.
 //@ contract (*shardManagerImpl).TerminatePreviousLocalReceiver
-//@   props C08 C04
+//@   props C08 C04 C20:lock
 //@   requires sm.localReceiverCancelFuncs != nil && sm.localAckChannels != nil && logger != nil
 //@   ensures @predecessor_evicted: !(shardID in sm.localReceiverCancelFuncs)
 
@@ -942,10 +960,10 @@ package proxy
 //@ guards intraProxyManager.streamsMu: *peers
 //@   lockinv forall p string :: { p in self.peers } p in self.peers ==> self.peers[p] != nil
 //@ contract (*intraProxyManager).UnregisterSender
-//@   props C08
+//@   props C08 C20:lock
 //@   deletepre senders: @only_own_sender: !$present || $map[$key] == sender
 //@ contract (*intraProxyManager).RegisterSender
-//@   props C08
+//@   props C08 C20:lock
 //@   requires m.peers != nil && m.loggers != nil
 //@   ensures @newest_registered: targetShard.ClusterID != sourceShard.ClusterID ==> peerNodeName in m.peers && m.peers[peerNodeName] != nil
 //@ extern (ShardManager).GetIntraProxyManager@(*intraProxyStreamSender).Run(sm)
@@ -976,16 +994,16 @@ package proxy
 // unconditional); evicting a predecessor (TerminatePreviousLocalReceiver) stays unconditional by design.
 //@ guards shardManagerImpl.localReceiverCancelFuncsMu: *localReceiverCancelOwner
 //@ contract (*shardManagerImpl).UnregisterActiveReceiver
-//@   props C08
+//@   props C08 C20:lock
 //@   deletepre activeReceivers: @only_own_entry: $key == sourceShardID && $present && $map[$key] == receiver
 //@ contract (*shardManagerImpl).RemoveLocalReceiverCancelFunc
-//@   props C08
+//@   props C08 C20:lock
 // (the two maps have different Go types and therefore cannot be the same object; the untyped heap model needs to be told)
 //@   requires sm.localReceiverCancelFuncs != sm.localReceiverCancelOwner
 //@   deletepre localReceiverCancelFuncs: @only_own_entry: $key == shardID && shardID in sm.localReceiverCancelOwner && sm.localReceiverCancelOwner[shardID] == owner
 //@   deletepre localReceiverCancelOwner: @only_own_entry: $key == shardID && $present && $map[$key] == owner
 //@ contract (*shardManagerImpl).SetLocalReceiverCancelFunc
-//@   props C08
+//@   props C08 C20:lock
 //@   requires sm.localReceiverCancelFuncs != nil && sm.localReceiverCancelOwner != nil
 //@   ensures @newest_registered: shardID in sm.localReceiverCancelOwner && sm.localReceiverCancelOwner[shardID] == owner && shardID in sm.localReceiverCancelFuncs
 
